@@ -60,7 +60,7 @@ def pack_opts(draw, mode="dir", comps=("gzip", "xz", "lz4", "zstd", "lzma"), sma
 
 
 def cmdline(o, out):
-    a = ["-c", o["comp"], "-b", str(o["B"]), "-q"]
+    a = (["-c", o["comp"]] if o["comp"] != "default" else []) + ["-b", str(o["B"]), "-q"]
     if o.get("X"):
         a += ["-X", o["X"]]
     if o.get("T"):
@@ -263,7 +263,7 @@ def check_pack_fidelity(case, scratch, variant="asan", with_validator=True):
         raise Violation("image differs from the packed tree: " + "; ".join(diffs[:4]), diffs, sig="tree-diff")
     if img.B != o["B"]:
         raise Violation("block size %d, requested %d" % (img.B, o["B"]))
-    if sqfsimg.COMP_NAMES[img.comp] != o["comp"]:
+    if sqfsimg.COMP_NAMES[img.comp] != (o["comp"] if o["comp"] != "default" else "xz"):
         raise Violation("compressor %s, requested %s" % (sqfsimg.COMP_NAMES[img.comp], o["comp"]))
     if img.sb["mtime"] != treemodel.default_mtime(o):
         raise Violation("super block mtime %d, expected default %d" % (img.sb["mtime"], treemodel.default_mtime(o)))
